@@ -27,6 +27,20 @@ STORES = {
 }
 
 PROPS = {
+    "C17": {
+        "tiers": tiers(3000, 100000),
+        "level": "fault_enumeration",
+        "rule": "rapid-generated acyclic upcaster graph (0-8 raw edges over 7 names, several upcasters per source so 'first registered' matters, each raw upcaster appends a marker so the composition order is visible; optional typed family UA->UB->UC registered with RegisterUpcast, optionally reached from a raw edge), a 1-6 event log of raw and typed events (typed payloads sometimes undecodable) on MemoryStore or SQLite, and a fault position: the k-th upcaster application of the replay returns an error (k in 0..10, or none); with/without upcast error handler; checked through ReplayWithUpcast and SubscribeWithReplay[UC] against a chain model. Non-trivial: at least one upcaster registered; distinct = (graph, log, fault position) by scenario hash and history hash.",
+        "components": dict(REAL_BUS, **STORES),
+        "assumptions": COMMON_ASSUME + ["no concurrency in this property: the simulator contributes fault placement (every failure position of every chain over the sampled graphs), not schedules"],
+    },
+    "C16": {
+        "tiers": tiers(3000, 100000),
+        "rule": "three scenario families drawn per run: (A) 1-14 sequential RegisterUpcastFunc / ClearUpcasts / ClearUpcastsForType calls over 2-6 type names incl. invalid inputs (empty name, source = target, nil function), decided against a reachability-graph model; (B) 2-4 tasks racing such calls, results checked for linearizability against the same model with porcupine; (C) 1-5 raw upcasters whose returned type is drawn independently of the declared target (own source, earlier type, unknown type) over a 1-3 event log, ReplayWithUpcast or SubscribeWithReplay must finish within a step budget (each upcaster application is a scheduler step). Before the seeded search worker 0 enumerates EVERY sequence of length <=4 (quick) / <=5 (thorough) over a 20-operation alphabet on 3 names. Non-trivial: more than one operation; distinct = (scenario shape, schedule trace hash, history hash).",
+        "components": REAL_BUS,
+        "assumptions": COMMON_ASSUME + ["termination is judged by a step budget of 400 + 200 x registered upcasters scheduler steps"],
+        "expect_probes": ["porcupine-ok"],
+    },
     "C03": {
         "custom": "c03driver",
         "tiers": tiers(2000, 60000, quick_budget=40),
